@@ -130,6 +130,31 @@ class Fn:
                 strong(b)
         return out
 
+    def natural_loops(self):
+        """list of (header, body) for every header with a back edge from a block it dominates (nested loops are
+        reported separately, unlike sccs())"""
+        if getattr(self, '_nl', None) is not None:
+            return self._nl
+        dom = self.dominators()
+        out = []
+        for h in sorted(dom):
+            backs = [p for p in self.pred(h) if p in dom and h in dom[p]]
+            if not backs:
+                continue
+            body = {h}
+            st = list(backs)
+            while st:
+                x = st.pop()
+                if x in body:
+                    continue
+                body.add(x)
+                for p in self.pred(x):
+                    if p in dom:
+                        st.append(p)
+            out.append((h, body))
+        self._nl = out
+        return out
+
     # ---- iteration helpers
     def calls(self):
         """yield (block_idx, term) for every call terminator"""
